@@ -32,8 +32,9 @@ from __future__ import annotations
 from collections import Counter
 from typing import Any, Callable, Dict, List, Optional, Sequence, Tuple
 
-from ..core import Ctx, HarnessError, Report, Violation
+from ..core import Ctx, HarnessError, Report, Violation, mix32
 from .. import pycore, rsclient
+from ..gen_state import Stream
 
 PROPERTY = "C17"
 RULE = ("finite, complete: one case per duplicated item -- 256 opcode rows (normalised Python row vs Rust row), "
@@ -2345,10 +2346,275 @@ def check_views() -> List[Item]:
 
 
 # --------------------------------------------------------------------------------------------------
+# F2. what the views really register: init() observed over generated parent-file lengths
+# --------------------------------------------------------------------------------------------------
+# The SEGMENTS tables are declarations; the segments Binary Ninja gets are whatever init() hands to
+# add_auto_segment / add_auto_section for the parent file at hand.  The parent file's length is an input of
+# init() that the table dump holds constant (there is no file), so it is generated here: shorter than, equal
+# to, one byte around, and far beyond the nominal image, plus the "landmark" lengths at which a file-backed
+# segment that followed the file would reach another segment's start / end or the end of the address space.
+
+class _ParentFile:
+    """Stand-in for the raw parent BinaryView of a file of `length` bytes (the subset of the BinaryView API a
+    view may consult: length / len() / start / end / read / file).  Contents: ROM signature + hash bytes."""
+
+    def __init__(self, length: int, seed: int) -> None:
+        import types as _t
+
+        self.length = int(length)
+        self.start = 0
+        self.end = int(length)
+        self._seed = seed
+        self.file = _t.SimpleNamespace(filename="image.bin", original_filename="image.bin")
+
+    def __len__(self) -> int:
+        return self.length
+
+    def _byte(self, off: int) -> int:
+        sig = (0x2A, 0x0A, 0x00, 0x00)
+        return sig[off] if off < 4 else (mix32(self._seed, off) & 0xFF)
+
+    def read(self, addr: int, n: int) -> bytes:
+        lo = max(0, int(addr))
+        hi = min(self.length, int(addr) + max(0, int(n)))
+        return bytes(self._byte(o) for o in range(lo, hi))
+
+
+class _ViewRecorder:
+    """The Binary Ninja BinaryView API *below* the view class (the mock BinaryView lacks it): records what is
+    registered.  Sits behind the view class in the MRO, so whatever the view itself defines is used as is."""
+
+    def _rec(self) -> Dict[str, List[Any]]:
+        return self.__dict__.setdefault("_c17_rec", {"segments": [], "sections": []})
+
+    def add_auto_segment(self, start: Any, length: Any, data_offset: Any = 0, data_length: Any = 0, flags: Any = None) -> None:
+        self._rec()["segments"].append((int(start), int(length), int(data_offset), int(data_length)))
+
+    def add_auto_section(self, name: Any, start: Any, length: Any, *a: Any, **k: Any) -> None:
+        self._rec()["sections"].append((str(name), int(start), int(length)))
+
+    def read_int(self, addr: int, size: int, *a: Any, **k: Any) -> int:
+        """Little-endian read through the registered file-backed segments (0 where nothing is backed)."""
+        v = 0
+        for i in range(int(size)):
+            b = 0
+            for (st, ln, doff, dlen) in self._rec()["segments"]:
+                o = int(addr) + i - st
+                if 0 <= o < ln and o < dlen:
+                    got = self.data.read(doff + o, 1)  # type: ignore[attr-defined]
+                    b = got[0] if got else 0
+                    break
+            v |= b << (8 * i)
+        return v
+
+    def define_data_var(self, *a: Any, **k: Any) -> None:
+        pass
+
+    def define_auto_symbol(self, *a: Any, **k: Any) -> None:
+        pass
+
+    def add_function(self, *a: Any, **k: Any) -> None:
+        pass
+
+    def define_user_type(self, *a: Any, **k: Any) -> None:
+        pass
+
+
+class _ArchForViews:
+    """Registers the SC62015 architecture with the mocks for the duration of the observation (init() looks it up
+    by name and takes its standalone platform); everything added is taken away again."""
+
+    def __enter__(self) -> "_ArchForViews":
+        import types as _t
+        from binaryninja.architecture import Architecture
+        from sc62015.arch import SC62015
+
+        self._registry = getattr(Architecture, "_registry", None)
+        self._registered = False
+        self._platform = False
+        try:
+            arch = Architecture["SC62015"]
+        except Exception:  # noqa: BLE001
+            SC62015.register()
+            self._registered = True
+            arch = Architecture["SC62015"]
+        self._arch = arch
+        if not hasattr(arch, "standalone_platform"):
+            arch.standalone_platform = _t.SimpleNamespace(  # type: ignore[attr-defined]
+                parse_types_from_source=lambda src, *a, **k: _t.SimpleNamespace(types={}))
+            self._platform = True
+        return self
+
+    def __exit__(self, *exc: Any) -> None:
+        if self._platform:
+            try:
+                delattr(self._arch, "standalone_platform")
+            except Exception:  # noqa: BLE001
+                pass
+        if self._registered and isinstance(self._registry, dict):
+            self._registry.pop("SC62015", None)
+
+
+def observe_view_init(cls: Any, file_length: int, seed: int) -> Dict[str, Any]:
+    """Run cls(parent).init() over the recording BinaryView API; never raises."""
+    rec_cls = type(cls.__name__, (cls, _ViewRecorder), {})
+    out: Dict[str, Any] = {"segments": [], "sections": [], "ok": None}
+    try:
+        v = rec_cls(_ParentFile(file_length, seed))
+        try:
+            out["ok"] = bool(v.init())
+        except BaseException as exc:  # noqa: BLE001
+            out["err"] = f"{type(exc).__name__}: {str(exc)[:120]}"
+        rec = v.__dict__.get("_c17_rec") or {}
+        out["segments"] = list(rec.get("segments", []))
+        out["sections"] = list(rec.get("sections", []))
+    except BaseException as exc:  # noqa: BLE001
+        out["err"] = f"{type(exc).__name__}: {str(exc)[:120]}"
+    return out
+
+
+VIEW_LENGTH_CLASSES = ("tiny", "shorter", "shorter-by-1", "nominal", "longer-by-1", "trailer", "landmark", "much-longer")
+
+
+def view_nominal_length(cls: Any) -> int:
+    backed = [int(s.file_offset) + int(s.length) for s in cls.SEGMENTS if s.file_offset is not None]
+    return max(backed) if backed else 0
+
+
+def gen_view_file_lengths(cls: Any, seed: int, tier: str, space: int) -> Dict[str, List[int]]:
+    """File lengths per class for one view; the fixed boundary lengths are always there, the rest comes from the
+    seeded stream.  `landmark`: lengths at which a file-backed segment that ran to the end of the file would end
+    exactly at / one byte around another segment's start or end or the end of the address space."""
+    st = Stream(seed, 0xC17F, jhash_int(cls.__name__))
+    nom = view_nominal_length(cls)
+    n_rand = 2 if tier == "quick" else 6
+    out: Dict[str, List[int]] = {c: [] for c in VIEW_LENGTH_CLASSES}
+    out["tiny"] = sorted({4 + st.below(0xFC) for _ in range(n_rand)})
+    out["shorter"] = sorted({0x100 + st.below(max(1, nom - 0x101)) for _ in range(n_rand)})
+    out["shorter-by-1"] = [nom - 1]
+    out["nominal"] = [nom]
+    out["longer-by-1"] = [nom + 1]
+    out["trailer"] = sorted({nom + 2 + st.below(0x1000) for _ in range(n_rand)})
+    marks: List[int] = []
+    edges = sorted({int(s.start) for s in cls.SEGMENTS} | {int(s.start) + int(s.length) for s in cls.SEGMENTS} | {space})
+    for s in cls.SEGMENTS:
+        if s.file_offset is None:
+            continue
+        for e in edges:
+            for d in (-1, 0, 1):
+                ln = e + d - int(s.start) + int(s.file_offset)
+                if ln > nom + 1:
+                    marks.append(ln)
+    marks = sorted(set(marks))
+    if marks:
+        keep = len(marks) if tier != "quick" else min(len(marks), 4)
+        picked = {marks[0]}
+        while len(picked) < keep:
+            picked.add(st.choice(marks))
+        out["landmark"] = sorted(picked)
+    out["much-longer"] = sorted({2 * nom, 4 * nom} | {nom + 0x1000 + st.below(7 * nom) for _ in range(n_rand)})
+    return out
+
+
+def jhash_int(name: str) -> int:
+    h = 0
+    for ch in name:
+        h = mix32(h, ord(ch))
+    return h
+
+
+def check_view_init(seed: int, tier: str, forced: Optional[Dict[str, Any]] = None) -> List[Item]:
+    from sc62015 import view as V
+    from sc62015.pysc62015 import constants as K
+
+    items: List[Item] = []
+    p = py_run(bytes([0x32, 0x80, 0x05]), BASE_REGS, {})
+    lb = _imem_base(p)
+    if not isinstance(lb, int):
+        raise HarnessError("could not observe the lifter's internal-memory base address")
+    space = int(K.ADDRESS_SPACE_SIZE)
+    with _ArchForViews():
+        for cls in (V.SC62015RomView, V.SC62015FullView):
+            vname = cls.__name__
+            route = f"{vname}.init() (observed)"
+            declared = [(str(s.name), int(s.start), int(s.length)) for s in cls.SEGMENTS]
+            nom = view_nominal_length(cls)
+            lengths = gen_view_file_lengths(cls, seed, tier, space)
+            for lcls in VIEW_LENGTH_CLASSES:
+                iid = f"view-init:{vname}:{lcls}"
+                lens = lengths[lcls]
+                if forced is not None and forced.get("item") == iid and forced.get("file_lengths"):
+                    lens = [int(x) for x in forced["file_lengths"]]
+                    seed_used = int(forced.get("content_seed", seed))
+                else:
+                    seed_used = seed
+                case = {"item": iid, "file_lengths": list(lens), "content_seed": seed_used}
+                obs = [(ln, observe_view_init(cls, ln, seed_used)) for ln in lens]
+                nontrivial = any(ln != nom and len(o["segments"]) >= 2 for ln, o in obs)
+                labels = ["view-init", f"view-init:{lcls}"] + (["view-init:nontrivial"] if nontrivial else [])
+                if any("err" in o for _, o in obs):
+                    labels.append("view-init:raised")
+                it = Item(iid, nontrivial, labels,
+                          {"view": vname, "file_length_class": lcls, "nominal": hex(nom),
+                           "file_lengths": [hex(x) for x in lens],
+                           "registered": [[hex(x) for x in sg] for sg in (obs[0][1]["segments"] if obs else [])]})
+
+                def bad(subcheck: str, where: str, symptom: str, detail: str) -> None:
+                    it.violations.append(Violation(subcheck, where, symptom, dict(case), detail))
+
+                for ln, o in obs:
+                    ctx_s = f"parent file of {ln:#x} bytes ({lcls}; nominal {nom:#x})" + (f"; init() raised {o['err']}" if "err" in o else "")
+                    segs = o["segments"]
+                    secs = o["sections"]
+                    names = [secs[i][0] if len(secs) == len(segs) else f"segment #{i}" for i in range(len(segs))]
+                    geo = [(names[i], segs[i][0], segs[i][1]) for i in range(len(segs))]
+                    for i in range(len(geo)):
+                        for j in range(i + 1, len(geo)):
+                            (n1, a1, l1), (n2, a2, l2) = geo[i], geo[j]
+                            if a1 < a2 + l2 and a2 < a1 + l1:
+                                lo, hi = sorted([n1, n2])
+                                bad("view-segments", f"{route}: {lo} / {hi}", "segments overlap",
+                                    f"{n1}=[{a1:#x},{a1 + l1:#x}) {n2}=[{a2:#x},{a2 + l2:#x}); {ctx_s}")
+                    for n, a, l in geo:
+                        if a < 0 or l <= 0 or a + l > space:
+                            bad("view-segments", f"{route}: {n}", "segment is empty or not inside the address space",
+                                f"[{a:#x},{a + l:#x}) vs ADDRESS_SPACE_SIZE={space:#x}; {ctx_s}")
+                    iram = [g for g in geo if g[0] == "Internal RAM"]
+                    if len(iram) != 1:
+                        bad("view-internal-ram", route, "does not define exactly one Internal RAM segment", f"{geo}; {ctx_s}")
+                    elif iram[0][1] != lb:
+                        bad("view-internal-ram", f"{route}: Internal RAM", "does not start at the address the lifter uses",
+                            f"segment start {iram[0][1]:#x}, lifter uses {lb:#x}; {ctx_s}")
+                    elif iram[0][2] != int(K.INTERNAL_MEMORY_LENGTH):
+                        bad("view-internal-ram", f"{route}: Internal RAM", "length differs from INTERNAL_MEMORY_LENGTH",
+                            f"segment length {iram[0][2]:#x}; {ctx_s}")
+                    # the registered geometry is a copy of the declared table (and of the class docstring's map)
+                    dmap = {n: (a, l) for n, a, l in declared}
+                    gmap = {n: (a, l) for n, a, l in geo}
+                    for n in sorted(set(dmap) | set(gmap)):
+                        if dmap.get(n) != gmap.get(n):
+                            bad("view-segments-registered", f"{route}: {n}",
+                                "what init() registers differs from the declared SEGMENTS row",
+                                f"declared {_hex(dmap.get(n))}, registered {_hex(gmap.get(n))}; {ctx_s}")
+                # one fingerprint once per item
+                seen = set()
+                uniq = []
+                for v in it.violations:
+                    k = (v.subcheck, v.where, v.symptom)
+                    if k not in seen:
+                        seen.add(k)
+                        uniq.append(v)
+                it.violations = uniq
+                items.append(it)
+    return items
+
+
+# --------------------------------------------------------------------------------------------------
 # driver
 # --------------------------------------------------------------------------------------------------
 
-def collect_items() -> List[Item]:
+def collect_items(seed: int = 1, tier: str = "quick", forced: Optional[Dict[str, Any]] = None) -> List[Item]:
+    """`forced`: a saved case; the generated inputs of the item it names are taken from it instead of the stream."""
     from sc62015.pysc62015.instr.opcode_table import OPCODES
 
     rsclient.build()
@@ -2372,6 +2638,7 @@ def collect_items() -> List[Item]:
     items += check_address_space(rust, dump)
     items += check_pre_table(rust)
     items += check_views()
+    items += check_view_init(seed, tier, forced)
     ids = [it.id for it in items]
     if len(set(ids)) != len(ids):
         raise HarnessError("duplicate item ids in C17")
@@ -2431,7 +2698,7 @@ ASSUMPTIONS = [
 
 def run(ctx: Ctx) -> Report:
     rep = Report()
-    for it in collect_items():
+    for it in collect_items(ctx.seed, ctx.tier):
         rep.case(it.id if it.nontrivial else None, it.labels,
                  it.sample if (it.sample is not None and _want_sample(rep, it)) else None)
         for v in it.violations:
@@ -2457,7 +2724,7 @@ def _want_sample(rep: Report, it: Item) -> bool:
 def replay(ctx: Ctx, case: Dict[str, Any]) -> List[Violation]:
     want = case.get("item")
     out: List[Violation] = []
-    for it in collect_items():
+    for it in collect_items(ctx.seed, ctx.tier, case):
         if it.id == want:
             out += it.violations
     return out
